@@ -66,7 +66,8 @@ class World:
     def __init__(self, seed, level, as_url):
         rng = random.Random(f"C10-prod-{seed}-{level}")
         self.files, self.info = gen.rich_product(rng, [seed, 10, int(float(level) * 10)], level=level, n_images=2, scans=[None],
-                                                 geoms=[(5, 3), (4, 2)], leader_kw={"att_len": 16 + 120 * 3, "fac_lens": [80, 90, 100, 110]})
+                                                 geoms=[(5, 3), (4, 2)], leader_kw={"att_len": 16 + 120 * 3, "fac_lens": [80, 90, 100, 110]},
+                                                 near_constant=True)
         self.root = harness.unique_root("local", "c10")
         synth.install(self.files, self.root, "local")
         self.url = ("file://" + self.root) if as_url else self.root
